@@ -39,6 +39,10 @@ CHECKS["C15"] = ("Coq theorems: (A) over a pre-lexed stream, parse_meta_list acc
          "the documented kind, returned errors are spanned and already-spanned errors unchanged. Tied to the code by grammar-generated token streams + single-token mutations (table computed with syn alone) "
          "and by 128 probe implementers x 3 modes.",
          "Coq proof (induction over fuel / derivations; quantified over all implementers) + per-run differential correspondence")
+CHECKS["C18"] = ("Coq theorems for every declaration (any subset of the eleven words) and every body with any number of variants: the emitted validator accepts exactly the documented table, "
+         "words are additive, tuple admits newtype but not conversely, struct/enum words do not mix, one error per non-conforming variant, a union is an error and no body panics, the stand-alone "
+         "ShapeSet API agrees with the derived code. Tied to the code by the exhaustive run-time API (16 sets x 4 shapes), 121 compiled FromDeriveInput receivers x struct/enum/union bodies and all 32 FromVariant subsets.",
+         "Coq proof (case analysis + induction over variant lists) + per-run differential correspondence against compiled receivers")
 PARTIAL = {}
 def chk(pid):
     text, tech = CHECKS[pid]
